@@ -1,4 +1,5 @@
 import PsyVerif.Model.Topo
+import PsyVerif.Lemmas.ModClosure
 import Mathlib.Order.WellFounded
 import Mathlib.Data.Fintype.Basic
 import Mathlib.Order.RelClasses
@@ -306,6 +307,163 @@ theorem C27_unknown_ignored (g : Graph) : sortModules g = sortModules (prune g) 
   unfold sortModules
   rw [hpp]; simp [prune]
 
+/-! ## The producer of the map: `get_all_dependencies_recursively`
+
+`LFRicExtractDriverCreator` sorts the map computed by the worklist closure modelled in
+`Model/ModClosure.lean`.  The theorems below hold for every finite file system `w`, every
+duplicate-free initial set and **every pop order** of the `todo` set (the oracle `o`). -/
+
+/-- the worklist loop terminates (within `fuelBound` iterations) -/
+theorem C27_closure_terminates (w : World) (init : List Name) (o : List Nat) (h : init.Nodup) :
+    (closureSt w init o).todo = [] := (closureSt_spec w init o h).2
+
+theorem C27_closure_keys_nodup (w : World) (init : List Name) (o : List Nat) (h : init.Nodup) :
+    (keys (closure w init o)).Nodup := (closureSt_spec w init o h).1.keysNodup
+
+theorem mem_keys_iff {g : Graph} {m : Name} : m ∈ keys g ↔ ∃ ds, (m, ds) ∈ g := by
+  simp [keys]
+
+theorem reach_cases (w : World) (init : List Name) (o : List Nat) (h : init.Nodup) {m : Name}
+    (hr : Reach w init m) :
+    m ∈ keys (closure w init o) ∨ m ∈ (closureSt w init o).notFound ∨ m ∈ w.ignores := by
+  obtain ⟨hinv, htodo⟩ := closureSt_spec w init o h
+  induction hr with
+  | init hm =>
+    rcases hinv.initC _ hm with h1 | h1 | h1 | h1
+    · rw [htodo] at h1; simp at h1
+    · exact .inl h1
+    · exact .inr (.inl h1)
+    · exact .inr (.inr h1)
+  | @use m d u _ hinfo hig hd ih =>
+    rcases ih with h1 | h1 | h1
+    · obtain ⟨ds, hds⟩ := mem_keys_iff.mp h1
+      obtain ⟨u', hu', _, hfil⟩ := hinv.entry m ds hds
+      rw [hinfo] at hu'; cases hu'
+      by_cases hnf : d ∈ (closureSt w init o).notFound
+      · exact .inr (.inl hnf)
+      · have hdds : d ∈ ds := by rw [hfil]; exact List.mem_filter.mpr ⟨hd, by simpa using hnf⟩
+        rcases hinv.closed m ds d hds hdds with h2 | h2 | h2
+        · exact .inl h2
+        · rw [htodo] at h2; simp at h2
+        · exact .inr (.inr h2)
+    · have := (hinv.nf m h1).1; rw [hinfo] at this; cases this
+    · exact absurd h1 hig
+
+/-- **completeness and soundness of the keys**: the returned map lists exactly the modules
+that are reachable from the initial set through found, non-ignored modules and that are
+themselves found and not ignored ("This dictionary will be complete") -/
+theorem C27_closure_keys (w : World) (init : List Name) (o : List Nat) (h : init.Nodup) (m : Name) :
+    m ∈ keys (closure w init o) ↔ Reach w init m ∧ (w.info m).isSome ∧ m ∉ w.ignores := by
+  obtain ⟨hinv, _⟩ := closureSt_spec w init o h
+  constructor
+  · intro hm
+    obtain ⟨ds, hds⟩ := mem_keys_iff.mp hm
+    obtain ⟨u, hu, hig, _⟩ := hinv.entry m ds hds
+    exact ⟨hinv.sound m (.inr (.inl hm)), by simp [hu], hig⟩
+  · rintro ⟨hr, hf, hig⟩
+    rcases reach_cases w init o h hr with h1 | h1 | h1
+    · exact h1
+    · have := (hinv.nf m h1).1; rw [this] at hf; simp at hf
+    · exact absurd h1 hig
+
+/-- the modules recorded as not found are exactly the reachable ones without a source file -/
+theorem closure_notFound (w : World) (init : List Name) (o : List Nat) (h : init.Nodup) (m : Name) :
+    m ∈ (closureSt w init o).notFound ↔ Reach w init m ∧ w.info m = none ∧ m ∉ w.ignores := by
+  obtain ⟨hinv, _⟩ := closureSt_spec w init o h
+  constructor
+  · intro hm
+    exact ⟨hinv.sound m (.inr (.inr hm)), hinv.nf m hm⟩
+  · rintro ⟨hr, hn, hig⟩
+    rcases reach_cases w init o h hr with h1 | h1 | h1
+    · obtain ⟨ds, hds⟩ := mem_keys_iff.mp h1
+      obtain ⟨u, hu, _, _⟩ := hinv.entry m ds hds
+      rw [hn] at hu; cases hu
+    · exact h1
+    · exact absurd h1 hig
+
+/-- **the values**: the dependency set recorded for a module is its USE list minus the
+modules that could not be found (ignored modules stay, `sort_modules` drops them) -/
+theorem C27_closure_entry (w : World) (init : List Name) (o : List Nat) (h : init.Nodup)
+    {m : Name} {ds : List Name} (hm : (m, ds) ∈ closure w init o) :
+    ∃ u, w.info m = some u ∧ ∀ d, d ∈ ds ↔ d ∈ u ∧ ((w.info d).isSome ∨ d ∈ w.ignores) := by
+  obtain ⟨hinv, htodo⟩ := closureSt_spec w init o h
+  obtain ⟨u, hu, hig, hfil⟩ := hinv.entry m ds hm
+  refine ⟨u, hu, fun d => ?_⟩
+  constructor
+  · intro hd
+    have hd' : d ∈ u ∧ d ∉ (closureSt w init o).notFound := by
+      rw [hfil] at hd; simpa using List.mem_filter.mp hd
+    refine ⟨hd'.1, ?_⟩
+    rcases hinv.closed m ds d hm hd with h1 | h1 | h1
+    · exact .inl ((C27_closure_keys w init o h d).mp h1).2.1
+    · rw [htodo] at h1; simp at h1
+    · exact .inr h1
+  · rintro ⟨hd, hfi⟩
+    rw [hfil]
+    refine List.mem_filter.mpr ⟨hd, ?_⟩
+    have : d ∉ (closureSt w init o).notFound := by
+      intro hnf
+      have := hinv.nf d hnf
+      rcases hfi with h1 | h1
+      · rw [this.1] at h1; simp at h1
+      · exact this.2 h1
+    simpa using this
+
+/-- **pop-order independence**: although `todo.pop()` removes an arbitrary element, the
+returned map is the same *as a map* for every order (only the dict order differs) -/
+theorem C27_closure_deterministic (w : World) (init : List Name) (o₁ o₂ : List Nat) (h : init.Nodup) :
+    (∀ m, m ∈ keys (closure w init o₁) ↔ m ∈ keys (closure w init o₂)) ∧
+    (∀ m ds₁ ds₂, (m, ds₁) ∈ closure w init o₁ → (m, ds₂) ∈ closure w init o₂ → ds₁ = ds₂) := by
+  refine ⟨fun m => by rw [C27_closure_keys w init o₁ h, C27_closure_keys w init o₂ h], ?_⟩
+  intro m ds₁ ds₂ h1 h2
+  obtain ⟨u₁, hu₁, _, hf₁⟩ := (closureSt_spec w init o₁ h).1.entry m ds₁ h1
+  obtain ⟨u₂, hu₂, _, hf₂⟩ := (closureSt_spec w init o₂ h).1.entry m ds₂ h2
+  rw [hu₁] at hu₂; cases hu₂
+  rw [hf₁, hf₂]
+  apply List.filter_congr
+  intro d _
+  have := (closure_notFound w init o₁ h d).trans (closure_notFound w init o₂ h d).symm
+  by_cases hd : d ∈ (closureSt w init o₁).notFound
+  · simp [hd, this.mp hd]
+  · have hd2 : d ∉ (closureSt w init o₂).notFound := fun h' => hd (this.mpr h')
+    simp [hd, hd2]
+
+/-- "module `m` uses module `d`" in the file system -/
+def useRel (w : World) (d m : Name) : Prop := ∃ u, w.info m = some u ∧ d ∈ u
+
+/-- **the pipeline is complete**: closure-then-sort returns each required module exactly once -/
+theorem C27_pipeline_perm (w : World) (init : List Name) (o : List Nat) (h : init.Nodup) :
+    (pipeline w init o).Perm (keys (closure w init o)) :=
+  C27_perm _ (C27_closure_keys_nodup w init o h)
+
+theorem C27_pipeline_complete (w : World) (init : List Name) (o : List Nat) (h : init.Nodup) (m : Name) :
+    m ∈ pipeline w init o ↔ Reach w init m ∧ (w.info m).isSome ∧ m ∉ w.ignores := by
+  rw [(C27_pipeline_perm w init o h).mem_iff, C27_closure_keys w init o h]
+
+/-- **the pipeline orders dependencies first**: if the USE relation of the file system has
+no cycle, every module in the result comes after every found, non-ignored module it uses —
+for every pop order of the closure -/
+theorem C27_pipeline_order (w : World) (init : List Name) (o : List Nat) (h : init.Nodup)
+    (hac : ∀ m, ¬ Relation.TransGen (useRel w) m m) :
+    ∀ m u d, m ∈ pipeline w init o → w.info m = some u → d ∈ u → (w.info d).isSome →
+      d ∉ w.ignores → (pipeline w init o).idxOf d < (pipeline w init o).idxOf m := by
+  intro m u d hm hu hd hdf hdi
+  have hmk : m ∈ keys (closure w init o) := (C27_pipeline_perm w init o h).mem_iff.mp hm
+  obtain ⟨ds, hds⟩ := mem_keys_iff.mp hmk
+  obtain ⟨u', hu', hent⟩ := C27_closure_entry w init o h hds
+  rw [hu] at hu'; cases hu'
+  have hmr := (C27_closure_keys w init o h m).mp hmk
+  have hdk : d ∈ keys (closure w init o) :=
+    (C27_closure_keys w init o h d).mpr ⟨.use hmr.1 hu hmr.2.2 hd, hdf, hdi⟩
+  have hacg : Acyclic (closure w init o) := by
+    intro x hx
+    refine hac x (transGen_mono ?_ hx)
+    intro a b ⟨ds', hb, ha, _⟩
+    obtain ⟨u'', hu'', hent'⟩ := C27_closure_entry w init o h hb
+    exact ⟨u'', hu'', ((hent' a).mp ha).1⟩
+  exact C27_order _ (C27_closure_keys_nodup w init o h) hacg m ds d hds
+    ((hent d).mpr ⟨hd, .inl hdf⟩) hdk
+
 /-! ## non-vacuity: the hypotheses are met by concrete non-trivial maps -/
 
 /-- an acyclic map with an unknown dependency (9) and a diamond -/
@@ -336,5 +494,16 @@ theorem gOk_acyclic : Acyclic gOk := by
 
 /-- a cyclic map with a self-dependency still yields every module once -/
 example : sortModules [(1, [2]), (2, [1]), (3, [3, 1])] = [1, 2, 3] := by decide
+
+/-- a file system with a diamond, an ignored module (7), a module without source (9) and an
+unreachable module (5); the closure from {1} under three different pop orders -/
+def wOk : World := { files := [(1, [2, 3, 7]), (2, [4, 9]), (3, [4]), (4, []), (5, [1])], ignores := [7] }
+
+example : closure wOk [1] [] = [(1, [2, 3, 7]), (2, [4]), (3, [4]), (4, [])] := by decide
+example : closure wOk [1] [0, 2, 1, 1] = [(1, [2, 3, 7]), (3, [4]), (4, []), (2, [4])] := by decide
+example : pipeline wOk [1] [] = [4, 2, 3, 1] := by decide
+example : pipeline wOk [1] [0, 2, 1, 1] = [4, 3, 2, 1] := by decide
+/-- the not-found module discovered *after* its user was recorded is removed retroactively -/
+example : closure wOk [1, 2] [1] = [(2, [4]), (1, [2, 3, 7]), (4, []), (3, [4])] := by decide
 
 end C27
